@@ -46,6 +46,11 @@ func genHint(t *rapid.T, mode string, renewBias bool) Hint {
 		kinds = []string{"self", "self", "self", "len0", "free", "blk"}
 	}
 	h := Hint{Kind: rapid.SampledFrom(kinds).Draw(t, "hint-kind")}
+	if rapid.IntRange(0, 3).Draw(t, "hint-lifetimes") == 0 {
+		// the lifetime fields of a hint are the client's preference, in any relation to each other
+		lt := rapid.SampledFrom([][2]uint32{{1800, 0}, {1800, 900}, {0, 1800}, {900, 1800}, {0xffffffff, 0}, {0xffffffff, 0xffffffff}, {1, 1}, {3600, 7200}}).Draw(t, "lifetimes")
+		h.Pref, h.Valid = lt[0], lt[1]
+	}
 	switch h.Kind {
 	case "lenonly":
 		h.Len = rapid.IntRange(1, 128).Draw(t, "hint-len")
@@ -158,6 +163,17 @@ func GenCase(mode string) func(t *rapid.T) Case {
 			ip[0] = 0x20 // keep clear of v4-mapped space, which net.ParseCIDR would print as IPv4
 		}
 		ip = ip.Mask(net.CIDRMask(l, 128))
+		if rapid.IntRange(0, 3).Draw(t, "pool-noncanonical") == 0 {
+			// the pool written with bits set below its length (net.ParseCIDR accepts that and
+			// means the network it lies in): in the block-index bits, below the block size, or both
+			for n := rapid.IntRange(1, 3).Draw(t, "stray-bits"); n > 0; n-- {
+				bit := rapid.IntRange(l, 127).Draw(t, "stray-bit")
+				if rapid.Bool().Draw(t, "stray-in-index") && c.Page > l {
+					bit = rapid.IntRange(l, c.Page-1).Draw(t, "stray-index-bit")
+				}
+				ip[bit/8] |= 0x80 >> uint(bit%8)
+			}
+		}
 		c.Pool = fmt.Sprintf("%s/%d", ip.String(), l)
 		nclients := rapid.IntRange(1, 4).Draw(t, "nclients")
 		seen := map[string]bool{}
